@@ -14,7 +14,7 @@ for f in os.listdir(src):
 head = subprocess.check_output(["git", "-C", "/repo", "rev-parse", "--short", "HEAD"]).decode().strip()
 json.dump({
     "property": pid,
-    "origin": "independent sub-agent given only the property text and a scratch worktree (fifth round; told in one line each which changes of that property already existed)",
+    "origin": "independent sub-agent given only the property text and a scratch worktree (sixth round; told in one line each which changes of that property already existed)",
     "needs_to_manifest": needs,
     "confirmed": f"in scratch worktree /tmp/wt/confirm at /repo {head}: go build ./... passes with the change; existing tests of the patched package pass with it; the demonstration test fails with it and passes without it (tools/confirm_mutant.sh)",
     "detected_by": det,
